@@ -465,3 +465,202 @@ func stringPieces(v ssa.Value) []string {
 	walk(v, 0)
 	return out
 }
+
+// digitLoop: a loop that peels digits off an integer least-significant first (x % K ... x /= K).
+type digitLoop struct {
+	Fn      *ssa.Function
+	Rem     *ssa.BinOp
+	Base    int64
+	Verdict string // "backwards" (stored at a decreasing position), "reversed" (appended, reversed afterwards), "forwards", "unknown"
+}
+
+// digitLoops finds the digit-peeling loops of fn and classifies where each digit is put. Digits that come out least
+// significant first read correctly only when they are stored from the end of the buffer towards its start, or the
+// buffer is reversed before use.
+func digitLoops(fn *ssa.Function) []digitLoop {
+	var out []digitLoop
+	for _, lp := range naturalLoops(fn) {
+		for _, in := range lp.Header.Instrs {
+			phi, ok := in.(*ssa.Phi)
+			if !ok || !isInteger(phi.Type()) {
+				continue
+			}
+			// back edge: phi / K
+			var base int64
+			for i, e := range phi.Edges {
+				if !lp.Blocks[lp.Header.Preds[i]] {
+					continue
+				}
+				if q, ok := e.(*ssa.BinOp); ok && q.Op == token.QUO && q.X == ssa.Value(phi) {
+					if k, ok := constInt(q.Y); ok && k >= 2 {
+						base = k
+					}
+				}
+			}
+			if base == 0 {
+				continue
+			}
+			for b := range lp.Blocks {
+				for _, in2 := range b.Instrs {
+					rem, ok := in2.(*ssa.BinOp)
+					if !ok || rem.Op != token.REM || rem.X != ssa.Value(phi) {
+						continue
+					}
+					if k, ok := constInt(rem.Y); !ok || k != base {
+						continue
+					}
+					out = append(out, digitLoop{fn, rem, base, digitPlacement(lp, rem)})
+				}
+			}
+		}
+	}
+	return out
+}
+
+func digitPlacement(lp *loopInfo, rem *ssa.BinOp) string {
+	// values derived from the digit
+	derived := map[ssa.Value]bool{rem: true}
+	for changed := true; changed; {
+		changed = false
+		for b := range lp.Blocks {
+			for _, in := range b.Instrs {
+				v, ok := in.(ssa.Value)
+				if !ok || derived[v] {
+					continue
+				}
+				if _, isPhi := in.(*ssa.Phi); isPhi {
+					continue
+				}
+				var ops []*ssa.Value
+				for _, o := range in.Operands(ops) {
+					if *o != nil && derived[*o] {
+						switch in.(type) {
+						case *ssa.BinOp, *ssa.Convert, *ssa.UnOp, *ssa.IndexAddr, *ssa.Index, *ssa.ChangeType:
+							derived[v] = true
+							changed = true
+						}
+					}
+				}
+			}
+		}
+	}
+	decreasing := func(idx ssa.Value) bool {
+		// idx is (or is one step from) an integer loop variable whose back edge subtracts a constant
+		var phis []*ssa.Phi
+		switch x := idx.(type) {
+		case *ssa.Phi:
+			phis = append(phis, x)
+		case *ssa.BinOp:
+			if ph, ok := x.X.(*ssa.Phi); ok && (x.Op == token.SUB || x.Op == token.ADD) {
+				phis = append(phis, ph)
+			}
+		}
+		for _, ph := range phis {
+			if ph.Block() != lp.Header {
+				continue
+			}
+			for i, e := range ph.Edges {
+				if !lp.Blocks[lp.Header.Preds[i]] {
+					continue
+				}
+				if bo, ok := e.(*ssa.BinOp); ok && bo.Op == token.SUB && bo.X == ssa.Value(ph) {
+					if k, ok := constInt(bo.Y); ok && k > 0 {
+						return true
+					}
+				}
+			}
+		}
+		return false
+	}
+	verdict := "unknown"
+	for b := range lp.Blocks {
+		for _, in := range b.Instrs {
+			switch x := in.(type) {
+			case *ssa.Store:
+				if !derived[x.Val] {
+					continue
+				}
+				ia, ok := x.Addr.(*ssa.IndexAddr)
+				if !ok {
+					continue
+				}
+				if _, isConst := ia.Index.(*ssa.Const); isConst {
+					// the one-element argument array of an append
+					continue
+				}
+				if decreasing(ia.Index) {
+					verdict = "backwards"
+				} else {
+					return "forwards"
+				}
+			case *ssa.Call:
+				bi, ok := x.Call.Value.(*ssa.Builtin)
+				if !ok || bi.Name() != "append" || len(x.Call.Args) != 2 {
+					continue
+				}
+				// append(buf, digit): the variadic slice holds a derived value
+				holds := false
+				if sl, ok := x.Call.Args[1].(*ssa.Slice); ok {
+					if al, ok := sl.X.(*ssa.Alloc); ok {
+						for _, r := range *al.Referrers() {
+							if ia, ok := r.(*ssa.IndexAddr); ok {
+								for _, r2 := range *ia.Referrers() {
+									if st, ok := r2.(*ssa.Store); ok && derived[st.Val] {
+										holds = true
+									}
+								}
+							}
+						}
+					}
+				}
+				if !holds {
+					continue
+				}
+				if _, isPhi := x.Call.Args[0].(*ssa.Phi); !isPhi {
+					continue
+				}
+				// appended least-significant first: fine only if the buffer is reversed after the loop
+				reversed := false
+				fn := x.Parent()
+				eachInstr(fn, func(bb *ssa.BasicBlock, in3 ssa.Instruction) {
+					if lp.Blocks[bb] {
+						return
+					}
+					if call, ok := in3.(*ssa.Call); ok {
+						if f := calleeObj(&call.Call); f != nil && f.Name() == "Reverse" && f.Pkg() != nil && (f.Pkg().Path() == "slices" || f.Pkg().Path() == "sort") {
+							reversed = true
+						}
+					}
+				})
+				// or by a swap loop after it (two index variables moving towards each other)
+				for _, lp2 := range naturalLoops(fn) {
+					if lp2 == lp || lp.Blocks[lp2.Header] {
+						continue
+					}
+					up, down := false, false
+					for _, in3 := range lp2.Header.Instrs {
+						if ph, ok := in3.(*ssa.Phi); ok && isInteger(ph.Type()) {
+							for i, e := range ph.Edges {
+								if lp2.Blocks[lp2.Header.Preds[i]] {
+									if bo, ok := e.(*ssa.BinOp); ok && bo.X == ssa.Value(ph) {
+										up = up || bo.Op == token.ADD
+										down = down || bo.Op == token.SUB
+									}
+								}
+							}
+						}
+					}
+					if up && down {
+						reversed = true
+					}
+				}
+				if reversed {
+					verdict = "reversed"
+				} else {
+					return "forwards"
+				}
+			}
+		}
+	}
+	return verdict
+}
